@@ -29,3 +29,20 @@ CHECKS = {
         'assumptions': ['GMP arithmetic', 'reference model /verif/ref', 'operator definitions transcribed from doc/definitions.dox into /verif/ref/defs.hh'],
     },
 }
+
+CHECKS['C13'] = {
+    'level': 'exploration',
+    'jobs': [{'engine': 'polyseq', 'variant': 'san', 'profile': 'alias', 'quick': 1600, 'thorough': 40000, 'avg_case_s': 0.15}],
+    'prefixes': ['C13.'],
+    'required_counters': ['bystander_checks', 'alias_checks', 'op.m_swap', 'op.assign'],
+    'rule': POLY_RULE,
+    'assumptions': ['GMP arithmetic', 'reference model /verif/ref'],
+}
+CHECKS['C15'] = {
+    'level': 'exploration',
+    'jobs': [{'engine': 'polyseq', 'variant': 'san', 'profile': 'ascii', 'quick': 1600, 'thorough': 40000, 'avg_case_s': 0.15}],
+    'prefixes': ['C15.'],
+    'required_counters': ['ascii_roundtrips', 'lockstep_checks'],
+    'rule': POLY_RULE,
+    'assumptions': ['GMP arithmetic', 'reference model /verif/ref'],
+}
